@@ -26,6 +26,8 @@ def gen_cases_corpus(n_gen, seed, opts=None, with_repo=True, base=0, tag='gen'):
         c = {'src': 'gen', 'seed': seed * 100003 + base + i}
         if opts:
             c['opts'] = opts
+        if i % 2:
+            c['reuse'] = True       # the locals of different routines share their names (render.reuse_names)
         out.append(c)
     if with_repo:
         for i, sn in enumerate(cases.snippets()):
